@@ -38,6 +38,21 @@ def cases(rng, tier):
         has_subs = bool(spec.get("subs"))
         ops = [tc.gen_op(rng, spec, far=not has_subs, rot_ref_small=True) for _ in range(L)]
         yield dict(obj=spec, ops=ops)
+    # nanometre-sized cells far from the origin (every length x 2^-30, exact): meshes WITH subregions under far
+    # translations / far reference points, which at unit scale run into the absolute 1e-12 of the alignment test (D18)
+    for k in range(60 if tier == "quick" else 500):
+        kind = ("mesh", "field")[k % 2]
+        spec = tc.gen_object_spec(rng, kind)
+        if not spec.get("subs"):
+            spec["subs"] = tc.gen_subs(rng, spec["mesh"], rng.randint(1, 3))
+        nd = len(spec["mesh"]["p1"])
+        ops = [dict(t="translate", v=[float(rng.choice([-1, 1]) * rng.randint(2 ** 15, 2 ** 19)) for _ in range(nd)],
+                    inplace=True, form="list")]
+        ops += [tc.gen_op(rng, spec, far=False, rot_ref_small=False) for _ in range(rng.randint(1, 5))]
+        # every other case in decimal nanometres (nothing representable: rounding errors of the far coordinates are
+        # large against the smallest edge, small against the coordinates themselves)
+        spec, ops = tc.rescale_case(spec, ops, -30 if k % 4 < 2 else 1e-9)
+        yield dict(obj=spec, ops=ops, stream="nm-far")
     # float-extreme stream (oracle only: the rational model does not absorb): far-away vectors / reference points
     # and tiny factors, where a step can leave a zero edge length in binary64
     for k in range(40 if tier == "quick" else 400):
@@ -270,7 +285,7 @@ def _history_mag(mag, op, mr):
 
 
 def _reg(name, a, b, dis, rel=Fraction(1, 2**40)):
-    sc = max([abs(F(x)) for x in b["pmin"] + b["pmax"]] + [Fraction(1), _MAG])
+    sc = max([abs(F(x)) for x in b["pmin"] + b["pmax"]] + [_MAG])     # (no absolute floor: nanometre meshes)
     for key in ("pmin", "pmax"):
         if len(a[key]) != len(b[key]) or any(abs(F(x) - F(y)) > rel * sc for x, y in zip(a[key], b[key])):
             dis.append(f"{name}: {key} impl {[float(F(x)) for x in a[key]]} vs model {[float(F(x)) for x in b[key]]}")
@@ -325,8 +340,25 @@ def known(case, text):
     # rejects cell-aligned subregions once coordinates carry rotation rounding at larger magnitudes
     if case["obj"].get("subs") and ("is not aligned with the mesh" in text or "cannot be divided into" in text
                                     or "is not in the mesh region" in text):
-        return "D18"
+        # the ABSOLUTE 1e-12 can only matter when rounding errors of the coordinates (a few ulp per step at the
+        # largest magnitude of the history) reach it: not on nanometre meshes, however far away in cells
+        if _case_mag(case) * 2.0 ** -50 * (1 + len(case["ops"])) >= 1e-14:
+            return "D18"
     return None
+
+
+def _case_mag(case):
+    """largest magnitude of a coordinate that can occur in the history (corners, vectors, reference points, stretched
+    by the factors)"""
+    o = case["obj"]
+    tgt = o if o["kind"] == "region" else o["mesh"]
+    mag = max([abs(float(x)) for x in list(tgt["p1"]) + list(tgt["p2"])] + [0.0])
+    for op in case["ops"]:
+        vals = [abs(float(x)) for key in ("ref", "v") for x in (op.get(key) or [])]
+        f = op.get("f")
+        fs = [abs(float(x)) for x in (f if isinstance(f, list) else [f])] if f is not None else []
+        mag = max(mag, max(fs + [1.0]) * (max(vals + [0.0]) + mag))
+    return mag
 
 
 def search(case, rng):
